@@ -709,8 +709,20 @@ class Runner:
                     obj = qr.Aggregate([qr.Molecule([0.0, 1.0]), qr.Molecule([0.0, 1.1])])
                 if name == "agg_coupling":
                     obj.set_resonance_coupling(0, 1, v)
-                else:
+                elif int(round(abs(v) * 1000)) % 2:
                     obj.set_resonance_coupling_matrix([[0.0, v], [v, 0.0]])
+                else:
+                    # the caller keeps its numpy array, hands it to a second aggregate as well and edits that one element-wise:
+                    # neither the caller's array nor the first aggregate may follow
+                    m = numpy.array([[0.0, v], [v, 0.0]])
+                    obj.set_resonance_coupling_matrix(m)
+                    other = qr.Aggregate([qr.Molecule([0.0, 1.0]), qr.Molecule([0.0, 1.1])])
+                    other.set_resonance_coupling_matrix(m)
+                    other.set_resonance_coupling(0, 1, 2.0 * v + 1.0)
+                    self.ctx.probe("coupling_array_shared_by_two_aggregates")
+                    if not numpy.array_equal(m, numpy.array([[0.0, v], [v, 0.0]])):
+                        raise Violation("caller-array-unchanged", "op %d: coupling matrix array handed to two aggregates under %s "
+                                        "was changed by an element-wise edit of one of them" % (i, u))
                 store = e
             elif name in ("cf_reorg", "sd_reorg"):
                 obj = self._make_cf(name, v)
